@@ -212,6 +212,30 @@ fn body(mode: &str, n: usize, shape: &str, stack: usize) {
                 drop(a);
             }
         }
+        "concurrent" => {
+            // two (then three) owners of the same history release it at the same moment on different threads; repeated
+            // with fresh histories (sampled schedules - the exhaustive counterpart is loom body B6)
+            drop(mid);
+            let mut cur = Some(s);
+            for round in 0..40usize {
+                let s0 = cur.take().unwrap_or_else(|| if mode == "play" { play(n.min(2000)) } else { synthetic(n) });
+                let owners = 2 + round % 2;
+                let barrier = std::sync::Arc::new(std::sync::Barrier::new(owners));
+                let mut hs = vec![];
+                for _ in 0..owners {
+                    let c = s0.clone();
+                    let b = barrier.clone();
+                    hs.push(std::thread::Builder::new().stack_size(stack).spawn(move || {
+                        b.wait();
+                        drop(c);
+                    }).unwrap());
+                }
+                drop(s0);
+                for h in hs {
+                    h.join().unwrap();
+                }
+            }
+        }
         "other_thread" => {
             drop(mid);
             let h = std::thread::Builder::new().stack_size(stack).spawn(move || {
